@@ -867,7 +867,50 @@ def r9_index_dict_producers_agree(ctx):
                     'does not' % (oa, ob), key='index-dict-order-differs')
 
 
+def r10_index_dicts_compared_order_insensitively(ctx, rule_id='R-C13.10'):
+    """change_meta_indexes() decides which indexes to drop and which to
+    create by looking each per-index dictionary up under a key.  The same
+    index arrives with different key orders (built by Diff.evolution, by
+    ModelMutator.change_meta from the signature, or loaded from hint text,
+    where get_hint_params() sorts the keys): a key that depends on insertion
+    order - repr() of the dictionary itself - makes an untouched index look
+    removed-and-added to one of them, so the mutation loaded from a hint
+    generates different SQL (DROP INDEX + CREATE INDEX) than the hinted
+    one."""
+    ctx.rule(rule_id)
+    p = ctx.program
+    f = p.func('db.common', 'BaseEvolutionOperations.change_meta_indexes')
+    n = 0
+    bad = None
+    for comp in walk_no_nested(f.node):
+        if not isinstance(comp, ast.DictComp):
+            continue
+        tgt = comp.generators[0].target
+        if not isinstance(tgt, ast.Name):
+            continue
+        n += 1
+        k = comp.key
+        if isinstance(k, ast.Call) and call_name(k) in ('repr', 'str') and \
+                k.args and isinstance(k.args[0], ast.Name) and \
+                k.args[0].id == tgt.id:
+            bad = k
+    ctx.floor('lookup maps of per-index dictionaries in change_meta_indexes',
+              n, 2)
+    if bad is not None:
+        ctx.finding(f, bad, 'change_meta_indexes keys the per-index '
+                    'dictionaries by %s, which depends on their key '
+                    'insertion order: the same set of indexes in another '
+                    'key order (a mutation loaded from its hint text) drops '
+                    'and re-creates every index that has extra attributes' %
+                    ' '.join(unparse(bad).split()),
+                    key='index-dict-key-order-sensitive')
+    else:
+        ctx.ok(f, 'per-index dictionaries are looked up under an '
+               'order-insensitive key')
+
+
 def run(ctx):
+    r10_index_dicts_compared_order_insensitively(ctx)
     r9_index_dict_producers_agree(ctx)
     r8_hint_text_reaches_output_verbatim(ctx)
     r1_import_closure(ctx)
